@@ -66,6 +66,17 @@ pub fn gen(tier: &str, r: &mut Rng) -> Vec<String> {
             let pos = if name == "SSBOND" || name == "MODRES" || name == "MASTER" || name == "END" { 4 } else { 1 };
             push(&mut out, r, embed(&p, pos), "prefix");
         }
+        // every prefix with one multi-byte character somewhere in it (byte length and character count differ:
+        // guards that test the one and index by the other)
+        for k in 7..=cs.len() {
+            for &c in &['\u{e9}', '\u{20ac}', '\u{1f600}'] {
+                if tier != "thorough" && !r.chance(1, 2) { continue; }
+                let mut v: Vec<char> = cs[..k].to_vec();
+                let at = if r.chance(1, 2) { 6 + r.below(k - 6) } else { (12 + r.below(6)).min(k - 1) };
+                v[at] = c;
+                push(&mut out, r, embed(&v.iter().collect::<String>(), 1), "prefix-multibyte");
+            }
+        }
         // every single-column substitution / insertion / deletion
         for k in 0..cs.len() {
             for &c in SUBS {
